@@ -46,6 +46,8 @@ def swarm_config(rng, idx, default_every=7):
     # in some runs the completion of the agent's own closes is held back (peer not reading): the old
     # connection's connectionLost then arrives while the next attempt / session is already under way
     cfg["hold_cdone"] = rng.chance(0.12)
+    # Adj-RIB maintenance switched on (off by default): the session layer must behave the same
+    cfg["rib"] = rng.chance(0.1)
     return cfg
 
 
@@ -86,6 +88,9 @@ SCENARIOS = [
     # automatic start comes due
     [("ev", "start"), ("wait", 3)],
     [("ev", "start"), ("wait", 1), ("conn_ok",), ("reach", "Established"), ("fire", 2)],
+    # the connection is lost while a message is only partly received; the next session starts on a clean stream
+    [("reach", "Established"), ("ev", "partial"), ("ev", "peer_reset"), ("wait", 2), ("conn_ok",), ("reach", "Established"), ("fire", 2)],
+    [("reach", "OpenSent"), ("ev", "partial"), ("ev", "peer_close"), ("wait", 3), ("conn_ok",), ("reach", "Established"), ("fire", 2)],
 ]
 
 
@@ -125,6 +130,31 @@ class FsmCtx(BaseCtx):
         self.planned = True
 
     def choose(self, rng):
+        """A message that was delivered in part is completed before anything else is sent on that connection
+        (other events - timers, REST, a close or reset - may come in between)."""
+        pr = getattr(self, "partial_rest", None)
+        if pr is None:
+            return self.choose_any(rng)
+        k = None
+        for i, c in enumerate(self.world.live_conns()):
+            if c.cid == pr[0] and c.readable():
+                k = i
+        if k is None:
+            self.partial_rest = None          # the connection has gone: the rest never arrives
+            return self.choose_any(rng)
+        if rng.chance(0.4):
+            self.partial_rest = None
+            return ["send", k, pr[1].hex(), []]
+        op = self.choose_any(rng)
+        if op is not None and op[0] == "send" and op[1] == k and self.partial_rest is pr:
+            self.partial_rest = None
+            return ["send", k, pr[1].hex(), []]
+        if self.partial_rest is not pr and self.partial_rest is not None:
+            self.partial_rest = None          # (no second partial delivery while one is open)
+            return ["send", k, pr[1].hex(), []]
+        return op
+
+    def choose_any(self, rng):
         w = self.world
         if not getattr(self, "planned", False):
             self.plan_target(rng)
@@ -155,6 +185,12 @@ class FsmCtx(BaseCtx):
         # --- application-handler fault (profiles that set p_hfail): the n-th callback from now raises ENOSPC
         if cfg.get("p_hfail") and w.handler_fail_in is None and rng.chance(cfg["p_hfail"]):
             return ["hfail", rng.randrange(1, 4)]
+        # --- TCP segmentation (profiles that set p_partial): the rest of a partly delivered message, or a new
+        # partial delivery; in between the peer may also drop the connection
+        if cfg.get("p_partial") and getattr(self, "partial_rest", None) is None and rng.chance(cfg["p_partial"]):
+            op = self.event_op(rng, "partial")
+            if op is not None:
+                return op
         # --- setsockopt(TCP_MD5SIG) fails once, on the next attempt (profiles that set p_sockfail)
         if cfg.get("p_sockfail") and getattr(w, "sockopt_fail_next", None) is None and rng.chance(cfg["p_sockfail"]):
             return ["sockfail", rng.pick([12, 92])]
@@ -200,7 +236,7 @@ class FsmCtx(BaseCtx):
         if kind == "advance":
             return self.advance_op(rng)
         if kind == "rest":
-            return self.event_op(rng, rng.pick(["stop", "start", "read_state", "read_state"]))
+            return self.event_op(rng, rng.pick(["stop", "start", "read_state", "read_state", "poll"]))
         if kind == "connres":
             k = [k for k, c in enumerate(live) if c.state == "connecting"][0]
             return ["conn_refuse", k] if rng.chance(0.4) else ["conn_ok", k]
@@ -343,6 +379,18 @@ class FsmCtx(BaseCtx):
                 if k is None or not live[k].readable():
                     return None
             return ["send", k, self.msg_bytes(rng, ev).hex(), []]
+        if ev == "partial":
+            # only the first octets of a (valid) message arrive: not a message yet, nothing may happen
+            if k is None:
+                k = self.cur_k()
+                if k is None or not live[k].readable():
+                    return None
+            msg = self.msg_bytes(rng, rng.pick(["keepalive", "update", "open_valid", "update"]))
+            cut = rng.pick([1, 10, 18, 19, min(20, len(msg) - 1), rng.randrange(1, len(msg))])
+            cut = max(1, min(cut, len(msg) - 1))
+            self.partial_rest = (live[k].cid, msg[cut:])
+            self.stats["gen:partial_message"] += 1
+            return ["send", k, msg[:cut].hex(), []]
         if ev in ("peer_close", "peer_reset"):
             k = self.cur_k()
             if k is None or live[k].state != "connected":
@@ -359,6 +407,8 @@ class FsmCtx(BaseCtx):
             return ["rest", "GET", URL + "manual-start", "ok"]
         if ev == "read_state":
             return ["rest", "GET", URL + "state", "ok"]
+        if ev == "poll":
+            return ["rest", "GET", "/v1/", "none"]          # the liveness poll of a monitoring system
         if ev in ("conn_ok", "conn_refuse"):
             for k, c in enumerate(live):
                 if c.state == "connecting":
@@ -604,11 +654,11 @@ class FsmProfile(BaseProfile):
     id = "C01"
     runs = {"quick": 40000, "thorough": 1500000}
     rule = ("one run = seeded swarm configuration + up to 60 environment ops (connect results, whole peer messages of "
-            "the C01 alphabet, peer close/reset, explicit timer firings with tie index, partial time advances, operator "
+            "the C01 alphabet - 30 % of the runs also deliver some messages in two pieces -, peer close/reset, explicit timer firings with tie index, partial time advances, operator "
             "stop/start/state via REST, delayed close completion); half of the runs first steer to a (model state, event) "
             "cell drawn from the table; non-trivial = reached OpenSent or beyond; distinct = distinct sequence of "
             "(model state, abstract event) cells")
-    probes = ["gen:scenario_runs", "ev:open_valid", "ev:open_hold0", "ev:open_err1", "ev:open_err2", "ev:open_err6", "ev:keepalive", "ev:update",
+    probes = ["gen:partial_message", "gen:scenario_runs", "ev:open_valid", "ev:open_hold0", "ev:open_err1", "ev:open_err2", "ev:open_err6", "ev:keepalive", "ev:update",
               "ev:notif(2,1)", "ev:notif(other)", "ev:rr", "ev:bad_marker", "ev:bad_length", "ev:bad_type",
               "ev:peer_close", "ev:close_done", "ev:conn_timeout", "ev:conn_refused", "ev:stop", "ev:start",
               "ev:timer", "same_instant_choice"]
@@ -621,6 +671,10 @@ class FsmProfile(BaseProfile):
             # layer has acted on the OPEN by then and must go on as if nothing had happened
             cfg["p_hfail"] = rng.pick([0.05, 0.15])
             cfg["hfail_only"] = ["open_received"]
+        if self.id == "C01" and rng.chance(0.3):
+            # TCP segmentation: some messages arrive in two pieces (the first piece is not an event), and the peer
+            # may drop the connection in between
+            cfg["p_partial"] = rng.pick([0.05, 0.15])
         return cfg
 
     def new_ctx(self, cfg, tier):
